@@ -20,7 +20,7 @@ class JobRec:
                  "context_hash", "handoffs", "consumed", "released", "outcome", "finalized",
                  "was_cached", "call_hash", "created_seq", "settled_seq", "limits", "options",
                  "exec_count", "prov", "cache_scope", "children", "status", "execution_id",
-                 "parent_key", "pre_call_hash", "main_resolved")
+                 "parent_key", "pre_call_hash", "main_resolved", "bound_args", "arg_hashes")
 
     def __init__(self, id: str):
         self.id = id
@@ -51,6 +51,8 @@ class JobRec:
         self.parent_key = None
         self.pre_call_hash = None
         self.main_resolved = False
+        self.bound_args = None
+        self.arg_hashes = None
 
 
 class Recorder:
@@ -107,6 +109,10 @@ def recording(w: World, rec: Recorder):
             orig(self, task, expr, id=id, parent_job=parent_job, execution=execution,
                  options=options)
             r = rec.rec(self)
+            if r.task is not None:
+                # extend_run() builds a stand-in Job object with the id of the calling job;
+                # it is not a new job
+                return
             r.task = task.fullname
             r.task_hash = task.hash
             r.parent = parent_job.id if parent_job is not None else None
@@ -167,6 +173,19 @@ def recording(w: World, rec: Recorder):
             r.options = dict(job.get_options())
             r.prov = job.recording_provenance()
             r.cache_scope = str(job.get_option("cache_scope", None))
+            try:
+                import inspect
+
+                names = list(inspect.signature(job.task.func).parameters)
+                a, kw = job.args
+                bound = dict(zip(names, a))
+                bound.update(kw)
+                r.bound_args = tuple((n, _val_key(bound[n])) for n in names if n in bound)
+                reg = self._scheduler.type_registry
+                r.arg_hashes = {"pos": [reg.get_hash(x) for x in a],
+                                "kw": {k: reg.get_hash(v) for k, v in kw.items()}}
+            except Exception:
+                r.bound_args = None
             w.event("submit", r.task, job.id[:8], job.eval_hash and job.eval_hash[:8])
             if rec.root_settled_seq is not None:
                 rec.handoff_after_root.append(job.id)
@@ -371,7 +390,7 @@ def simulate(ch: Choices, prog: Program, *, db_path: Optional[str] = None,
              setup: Optional[Callable[[World, Recorder, Any], None]] = None,
              context: Optional[dict] = None,
              keep_backend: bool = False, scheduler: Any = None,
-             ns: Optional[int] = None) -> RunResult:
+             ns: Optional[int] = None, backend_in_config: bool = False) -> RunResult:
     """
     One simulated execution of `prog` on a fresh (or given) backend file.
     """
@@ -398,8 +417,13 @@ def simulate(ch: Choices, prog: Program, *, db_path: Optional[str] = None,
                 keep_backend = True
             else:
                 backend = schedsim.open_backend(db_path)
+                extra = None
+                if backend_in_config:
+                    # sub-schedulers (subrun) build their backend from the forwarded config
+                    extra = {"backend": {"db_uri": f"sqlite:///{db_path}", "automigrate": "False"}}
                 sched = schedsim.make_scheduler(
-                    backend, limits=limits if limits is not None else prog.limits, context=context)
+                    backend, limits=limits if limits is not None else prog.limits, context=context,
+                    config=extra)
                 sched.logger = schedsim.QuietLogger()
             if setup:
                 setup(w, rec, sched)
